@@ -7,7 +7,7 @@
 use std::cell::RefCell;
 use std::cmp::Ordering;
 use std::collections::BTreeSet;
-#[cfg(feature = "iterable_populations")]
+#[cfg(feature = "optional_flavours")]
 use std::collections::VecDeque;
 use std::num::NonZeroUsize;
 
@@ -203,7 +203,7 @@ pub fn select_once(case: &Value, container: &str, rng: &mut SmallRng) -> Value {
         macro_rules! on_iterable {
             ($selector:expr, $err:expr) => {{
                 match container {
-                    #[cfg(feature = "iterable_populations")]
+                    #[cfg(feature = "optional_flavours")]
                     "deque" => {
                         let p: VecDeque<Probe> = pop.iter().cloned().collect();
                         match $selector.select(&p, rng) { Ok(r) => locate(p.iter(), r), Err(e) => $err(e) }
